@@ -36,7 +36,7 @@ pub fn compose_table(lang: &str) -> Vec<(&'static str, &'static str, char)> {
             ("ÀÈÌÒÙàèìòù", "AEIOUaeiou", '\u{300}'),
         ],
         "ru" => vec![("Ёё", "Ее", '\u{308}')],
-        "xk" => vec![("がぎば", "かきは", '\u{3099}'), ("ぱ", "は", '\u{309a}'), ("ヴ", "ウ", '\u{3099}'), ("\u{fb2a}", "ש", '\u{5c1}')],
+        "xk" => vec![("がぎば", "かきは", '\u{3099}'), ("ぱ", "は", '\u{309a}'), ("ヴ", "ウ", '\u{3099}'), ("\u{fb2a}", "ש", '\u{5c1}'), ("ヴ", "ｳ", 'ﾞ')],
         "xc" => vec![("ÄÖÜäöü", "AOUaou", '\u{308}'), ("Éé", "Ee", '\u{301}')],
         _ => vec![],
     }
@@ -45,7 +45,7 @@ pub fn compose_table(lang: &str) -> Vec<(&'static str, &'static str, char)> {
 /// One-to-one canonical mappings applied together with the compositions (user-defined language only).
 pub fn singleton_table(lang: &str) -> Vec<(char, char)> {
     match lang {
-        "xk" => vec![('\u{212b}', '\u{c5}'), ('\u{1f71}', '\u{3ac}')],
+        "xk" => vec![('\u{212b}', '\u{c5}'), ('\u{1f71}', '\u{3ac}'), ('ｳ', 'ウ')],
         "xc" => vec![('\u{212b}', '\u{c5}')],
         _ => vec![],
     }
@@ -70,7 +70,8 @@ pub fn deleted_by_composition(lang: &str) -> Vec<char> {
 /// Letters folded to two letters (no decomposed form).
 pub fn expanding_table(lang: &str) -> Vec<(char, &'static str)> {
     match lang {
-        "de" | "xd" => vec![('ẞ', "SS"), ('ß', "ss")],
+        "de" => vec![('ẞ', "SS"), ('ß', "ss")],
+        "xd" => vec![('ẞ', "S"), ('ß', "s")],
         "fr" => vec![('Æ', "AE"), ('æ', "ae"), ('Œ', "OE"), ('œ', "oe"), ('Ø', "OE"), ('ø', "oe")],
         "xk" => vec![('ゟ', "より")],
         // the reduce-only language: every entry of its reduce table (two of them do not lengthen the text)
@@ -189,6 +190,11 @@ pub fn listed_function_words(lang: &str) -> BTreeSet<String> {
         let mut it = line.split(' ');
         if it.next() == Some(base_lang(lang)) {
             for w in it {
+                // (the extended language re-registers the sharp s keys AFTER its function words were registered under
+                // their old spelling: those entries are no longer reachable and are not part of its list)
+                if lang == "xd" && (w.contains('ß') || w.contains('ẞ')) {
+                    continue;
+                }
                 out.insert(norm_word(lang, w));
             }
         }
